@@ -62,7 +62,11 @@ def insertSorted (h : String) (it : Item) : List (String × Item) → List (Stri
   | (k, v) :: rest => if h < k then (h, it) :: (k, v) :: rest else if h = k then (h, it) :: rest
                       else (k, v) :: insertSorted h it rest
 
-def Coll.put (c : Coll) (h : String) (it : Item) : Coll := { c with items := insertSorted h it c.items }
+/-- writing the file `h`: whatever was stored under that name is replaced -/
+def putEntry (h : String) (it : Item) (l : List (String × Item)) : List (String × Item) :=
+  insertSorted h it (l.filter (fun e => e.1 != h))
+
+def Coll.put (c : Coll) (h : String) (it : Item) : Coll := { c with items := putEntry h it c.items }
 def Coll.del (c : Coll) (h : String) : Coll := { c with items := c.items.filter (fun e => e.1 != h) }
 def Coll.hasUid (c : Coll) (u : String) : Bool := c.items.any (fun e => e.2.uid == u)
 
@@ -195,12 +199,12 @@ def asCollection (b : Body) : Option (Tag × List (String × Item)) :=
     if objs.all (fun o => o.uid != "" && o.kind != .card) && (objs.map (·.uid)).Nodup then
       let groups := objs.foldl (fun acc o => insertGroup o acc) []
       let items := groups.map (fun (u, g) => (⟨u, (g.head?.map (·.kind)).getD .event, 1000000 + groupCid g⟩ : Item))
-      some (.cal, (assignHrefs ".ics" items []).foldl (fun acc e => insertSorted e.1 e.2 acc) [])
+      some (.cal, (assignHrefs ".ics" items []).foldl (fun acc e => putEntry e.1 e.2 acc) [])
     else none
   | .cards objs =>
     if objs ≠ [] && objs.all (fun o => o.uid != "" && o.kind == .card) && (objs.map (·.uid)).Nodup then
       some (.book, (assignHrefs ".vcf" (objs.map (fun o => (⟨o.uid, .card, o.cid⟩ : Item))) [])
-                     |>.foldl (fun acc e => insertSorted e.1 e.2 acc) [])
+                     |>.foldl (fun acc e => putEntry e.1 e.2 acc) [])
     else none
   | .unparsable => none
 
